@@ -9,6 +9,7 @@ import XdsVerif.Driver.C20
 import XdsVerif.Driver.Handlers
 import XdsVerif.Driver.Decode
 import XdsVerif.Driver.Conc
+import XdsVerif.Driver.Sys
 open Lean XdsVerif.Driver
 
 def dispatch (p : String) (j : Json) : Except String Verdict :=
@@ -20,7 +21,7 @@ def dispatch (p : String) (j : Json) : Except String Verdict :=
   | "C19" => Hist.check "C19" j
   | "C05" => Conc.check "C05" j
   | "C06" => Conc.check "C06" j
-  | "C07" => Conc.check "C07" j
+  | "C07" => if jStrD j "op" "" = "sys" then Sys.check "C07" j else Conc.check "C07" j
   | "C08" => C08.check j
   | "C09" => C09.check j
   | "C10" => C10.check j
